@@ -479,7 +479,12 @@ impl GitignoreBuilder {
             line = &line[..line.len() - 1];
             // If the slash was escaped, then remove the escape.
             // See: https://github.com/BurntSushi/ripgrep/issues/2236
-            if line.as_bytes().last() == Some(&b'\\') {
+            //
+            // The slash is escaped only if it is preceded by an odd number
+            // of backslashes. Otherwise the backslashes escape each other.
+            let nbackslashes =
+                line.bytes().rev().take_while(|&b| b == b'\\').count();
+            if nbackslashes % 2 == 1 {
                 line = &line[..line.len() - 1];
             }
         }
